@@ -66,6 +66,8 @@ def dispatch(ctx, col):
              "concatenation, node setters, transforms), so a kept decomposition or measure describes the tree before the edit; zero expected, "
              "positive examples are those of the transform-state lint", floor=1)
     from ..rules import stateless as _stateless
+    from ..rules import rowslice as _rowslice
+    _rowslice.run(ctx, col, ('swcgeom.core.tree', 'swcgeom.core.tree_utils', 'swcgeom.core.tree_utils_impl', 'swcgeom.core.swc_utils.base', 'swcgeom.core.swc_utils.subtree', 'swcgeom.core.swc_utils.normalizer', 'swcgeom.transforms.tree'))
     _stateless.check_memo(ctx, col, "R-MEMO", ("swcgeom.core.tree", "swcgeom.core.path", "swcgeom.core.node", "swcgeom.core.branch",
                                                "swcgeom.core.compartment", "swcgeom.core.branch_tree", "swcgeom.core.swc", "swcgeom.core.segment"))
     R_ = "R-DISPATCH"
